@@ -325,6 +325,9 @@ func TestRAC_C07(t *testing.T) {
 	rng := rand.New(rand.NewSource(res.Seed + 707))
 	for i := 0; i < nr; i++ {
 		h := lightHistory(rng)
+		if i%3 == 2 {
+			h = emptyRootHistory(rng) // whole trees emptied, then additions merging over one or several empty roots
+		}
 		for _, mask := range lightMasks(rng) {
 			n++
 			res.seen(fmt.Sprintf("%s/%d", h.String(), mask))
@@ -346,7 +349,7 @@ func TestRAC_C07(t *testing.T) {
 		})
 	}
 	racLeaf = specLeaf
-	res.Rule = fmt.Sprintf("(+%d seeded random histories of up to 40 leaves / 2..5 blocks with 4 remember masks each; + every history with <= 5 leaves / <= 3 blocks and every mask under the 4 adversarial value assignments of TestRAC_ADV) ", nr) + fmt.Sprintf("every history with <= %d leaves / <= %d blocks and, for each, every subset of added leaves to remember (bit s of the mask = remember the leaf of insertion slot s), from the empty cached proof; after every block: held set, parallel positions, canonical proof hashes (specForest.CanonProof) and acceptance by Verify. distinct = (history, remember mask) pairs", maxLeaves, maxBlocks)
+	res.Rule = fmt.Sprintf("(+%d seeded random histories of up to 47 leaves / 2..5 blocks (every third one empties whole trees and then adds over the empty roots) with 4 remember masks each; + every history with <= 5 leaves / <= 3 blocks and every mask under the 4 adversarial value assignments of TestRAC_ADV) ", nr) + fmt.Sprintf("every history with <= %d leaves / <= %d blocks and, for each, every subset of added leaves to remember (bit s of the mask = remember the leaf of insertion slot s), from the empty cached proof; after every block: held set, parallel positions, canonical proof hashes (specForest.CanonProof) and acceptance by Verify. distinct = (history, remember mask) pairs", maxLeaves, maxBlocks)
 	res.Scope = fmt.Sprintf("client_runs=%d", n)
 	res.write(t)
 }
@@ -382,6 +385,9 @@ func TestRAC_C08(t *testing.T) {
 	rng := rand.New(rand.NewSource(res.Seed + 808))
 	for i := 0; i < nr; i++ {
 		h := lightHistory(rng)
+		if i%3 == 2 {
+			h = emptyRootHistory(rng)
+		}
 		for _, mask := range lightMasks(rng) {
 			for d := 1; d <= len(h) && d <= 2; d++ {
 				n++
